@@ -9,7 +9,7 @@ sed -i "$EXPR" "$D/pytenet/$F"
 if diff -q /repo/pytenet/"$F" "$D/pytenet/$F" >/dev/null; then echo "MUTATION DID NOT APPLY"; rm -rf "$D"; exit 3; fi
 diff /repo/pytenet/"$F" "$D/pytenet/$F" | head -6
 for P in "$@"; do
-  PYTENET_PATH="$D" "$(dirname "$0")/../run" "$P" quick > "$D/out.$P" 2>&1
+  VERIF_EVIDENCE_DIR="$D" PYTENET_PATH="$D" "$(dirname "$0")/../run" "$P" quick > "$D/out.$P" 2>&1
   echo "$P exit=$? $(grep -c '^VIOLATION' "$D/out.$P") violation line(s); $(grep -m1 -B1 '^VIOLATION' "$D/out.$P" | head -1 | cut -c1-200)"
   grep HARNESS-ERROR "$D/out.$P" | head -3
 done
